@@ -17,7 +17,7 @@ RULE = ("case = format string generated from the grammar (literal | %% | spec)*,
         "the process' stdout through print / println / show (captured by redirecting the descriptor); optionally one, two or "
         "all arguments too few, optionally surplus arguments (ignored, as String's own show relies on). %$ arguments: Int, "
         "Float, String, Type, NULL, Ref, Box (full or emptied), Range, Slice, Array / List of Int | String | Float, Table / "
-        "Tree with Int or String keys and values, Tuple of mixed values incl. nested Tuples / Arrays / Tables, Slice with "
+        "Tree with Int or String keys and values, Tuple of mixed values incl. NULL elements and nested Tuples / Arrays / Tables, Slice with "
         "0-3 arguments (start / stop / step, negative and '_' forms) over Array, List, Tuple, Range, Table, Tree<Int|String> "
         "or another Slice (expected items = what the Slice yields through the iteration API); containers "
         "have 0-4 (sometimes up to 30) elements and optionally a history (elements pushed and popped again, keys set and "
@@ -136,8 +136,10 @@ def _mix_val(draw, depth=0):
     n = draw(st.integers(0, 4 if depth else 6))
     items = []
     for _ in range(n):
-        k = draw(st.sampled_from(["Int", "Int", "String", "String", "Float", "Type", "Mix", "Array", "Table"] if depth < 2 else ["Int", "String", "Float"]))
-        if k == "Int":
+        k = draw(st.sampled_from(["Int", "Int", "String", "String", "Float", "Type", "Mix", "Array", "Table", "Null"] if depth < 2 else ["Int", "String", "Float", "Null"]))
+        if k == "Null":
+            items.append(["Null"])       # a NULL element is shown as <NULL>, with the separators of any other element
+        elif k == "Int":
             items.append(["Int", "i:%d" % draw(gen.ints())])
         elif k == "String":
             items.append(["String", "s:" + draw(gen.cbytes(6)).hex()])
@@ -152,6 +154,11 @@ def _mix_val(draw, depth=0):
         else:
             items.append(draw(_map_val()))
     return ["Mix", items]
+
+
+def _has_null(val):
+    """does this Mix value hold a NULL element, directly or in a nested Mix?  (every enclosing Tuple is then stack-class)"""
+    return val[0] == "Null" or (val[0] == "Mix" and any(_has_null(v) for v in val[1]))
 
 
 def _slots(val):
@@ -453,7 +460,13 @@ class _Builder:
                     parts.append(b", ")
                 parts += ps
             s = self.new_slot()
-            P.add("new %%%d heap t:Tuple %s" % (s, " ".join(refs)))
+            if _has_null(val):
+                # a Tuple with a NULL element is the stack-class `tuple(a, NULL, b)` the library itself builds for
+                # print("%$", NULL): a collector-managed Tuple holding NULL makes the next collection raise ValueError
+                # (type_of(NULL) in the marker) from an unrelated `new` - outside this property, see DESIGN 8.95
+                P.add("stup %%%d %s" % (s, " ".join(refs)))
+            else:
+                P.add("new %%%d heap t:Tuple %s" % (s, " ".join(refs)))
             return "%%%d" % s, parts + [b")"]
         if k == "SliceX":
             base, _ = self.build(val[1], depth + 1)
